@@ -180,6 +180,7 @@ func outLast() any                               { return nil }
 
 //@ func (*lexer).scanOperator
 //@ props C03 C04
+//@ ensures [C04 C03] no-character-is-a-named-token: r0 >= 57344 ==> r0 == 65533 || r0 == EQUAL_P || r0 == GREATEREQUAL_P || r0 == GREATER_P || r0 == LESSEQUAL_P || r0 == NOTEQUAL_P || r0 == LESS_P || r0 == NOT_P || r0 == AND_P || r0 == OR_P || r0 == ANY_P
 //@ modifies l.srcPos, l.lastCharLen, l.column, l.line, l.lastLineLen, l.errors, l.tokEnd
 //@ ensures [C03] eq: ch == '=' && firstret[rune](l.next, 0) == '=' ==> r0 == EQUAL_P && ncalls(l.next) == 2 && r1 == callret[rune](l.next, 0)
 //@ ensures [C03] ge: ch == '>' && firstret[rune](l.next, 0) == '=' ==> r0 == GREATEREQUAL_P && ncalls(l.next) == 2 && r1 == callret[rune](l.next, 0)
@@ -192,17 +193,25 @@ func outLast() any                               { return nil }
 //@ ensures [C03] and: ch == '&' && firstret[rune](l.next, 0) == '&' ==> r0 == AND_P && ncalls(l.next) == 2 && r1 == callret[rune](l.next, 0)
 //@ ensures [C03] or: ch == '|' && firstret[rune](l.next, 0) == '|' ==> r0 == OR_P && ncalls(l.next) == 2 && r1 == callret[rune](l.next, 0)
 //@ ensures [C03] any: ch == '*' && firstret[rune](l.next, 0) == '*' ==> r0 == ANY_P && ncalls(l.next) == 2 && r1 == callret[rune](l.next, 0)
-//@ ensures [C03] single: !(ch == '=' && firstret[rune](l.next, 0) == '=') && ch != '>' && ch != '<' && ch != '!' && !(ch == '&' && firstret[rune](l.next, 0) == '&') && !(ch == '|' && firstret[rune](l.next, 0) == '|') && !(ch == '*' && firstret[rune](l.next, 0) == '*') ==> r0 == ch && ncalls(l.next) == 1 && r1 == firstret[rune](l.next, 0)
+//@ ensures [C03] single: !(ch == '=' && firstret[rune](l.next, 0) == '=') && ch != '>' && ch != '<' && ch != '!' && !(ch == '&' && firstret[rune](l.next, 0) == '&') && !(ch == '|' && firstret[rune](l.next, 0) == '|') && !(ch == '*' && firstret[rune](l.next, 0) == '*') && ch < 57344 ==> r0 == ch && ncalls(l.next) == 1 && r1 == firstret[rune](l.next, 0)
+//@ ensures [C03 C04] private-use-is-no-token: !(ch == '=' && firstret[rune](l.next, 0) == '=') && ch != '>' && ch != '<' && ch != '!' && !(ch == '&' && firstret[rune](l.next, 0) == '&') && !(ch == '|' && firstret[rune](l.next, 0) == '|') && !(ch == '*' && firstret[rune](l.next, 0) == '*') && ch >= 57344 ==> r0 == 65533 && ncalls(l.next) == 1 && r1 == firstret[rune](l.next, 0)
+
+//@ func isASCII
+//@ pure
+//@ props C03 C04
+//@ loop 1 invariant [C03] ascii-so-far: i >= 0 && i <= len(s) && forall(func(j int) bool { return implies(0 <= j && j < i, s[j] < 128) })
+//@ ensures [C03 C04] all-below-128: r0 == forall(func(j int) bool { return implies(0 <= j && j < len(s), s[j] < 128) })
 
 //@ func identToken
 //@ pure
 //@ props C03
+//@ ensures [C03 C04] keywords-are-ascii: !isASCII(ident) ==> r0 == IDENT_P
 //@ ensures [C03] null: ident == "null" ==> r0 == NULL_P
 //@ ensures [C03] true: ident == "true" ==> r0 == TRUE_P
 //@ ensures [C03] false: ident == "false" ==> r0 == FALSE_P
 //@ ensures [C03] keywords-lower: (ident == "is" ==> r0 == IS_P) && (ident == "to" ==> r0 == TO_P) && (ident == "lax" ==> r0 == LAX_P) && (ident == "strict" ==> r0 == STRICT_P) && (ident == "last" ==> r0 == LAST_P) && (ident == "exists" ==> r0 == EXISTS_P) && (ident == "like_regex" ==> r0 == LIKE_REGEX_P) && (ident == "starts" ==> r0 == STARTS_P) && (ident == "with" ==> r0 == WITH_P) && (ident == "unknown" ==> r0 == UNKNOWN_P) && (ident == "flag" ==> r0 == FLAG_P)
 //@ ensures [C03] methods-lower: (ident == "abs" ==> r0 == ABS_P) && (ident == "size" ==> r0 == SIZE_P) && (ident == "type" ==> r0 == TYPE_P) && (ident == "floor" ==> r0 == FLOOR_P) && (ident == "ceiling" ==> r0 == CEILING_P) && (ident == "double" ==> r0 == DOUBLE_P) && (ident == "bigint" ==> r0 == BIGINT_P) && (ident == "boolean" ==> r0 == BOOLEAN_P) && (ident == "integer" ==> r0 == INTEGER_P) && (ident == "number" ==> r0 == NUMBER_P) && (ident == "decimal" ==> r0 == DECIMAL_P) && (ident == "string" ==> r0 == STRINGFUNC_P) && (ident == "keyvalue" ==> r0 == KEYVALUE_P) && (ident == "datetime" ==> r0 == DATETIME_P) && (ident == "date" ==> r0 == DATE_P) && (ident == "time" ==> r0 == TIME_P) && (ident == "time_tz" ==> r0 == TIME_TZ_P) && (ident == "timestamp" ==> r0 == TIMESTAMP_P) && (ident == "timestamp_tz" ==> r0 == TIMESTAMP_TZ_P)
-//@ ensures [C03] case-insensitive: uninterp[string]("ext_strings_ToLower_r0", ident) == "strict" && ident != "strict" ==> r0 == STRICT_P
+//@ ensures [C03] case-insensitive: isASCII(ident) && uninterp[string]("ext_strings_ToLower_r0", ident) == "strict" && ident != "strict" ==> r0 == STRICT_P
 
 //@ func (*lexer).digits
 //@ props C03 C04
